@@ -75,6 +75,8 @@ func genOptsFor(profile string) GenOpts {
 		o.NoTies = true
 	case "nostartend":
 		o.NoStartEnd = true
+	case "pairs":
+		o.Focus = profile
 	case "selpair":
 		o.Focus = profile
 		o.MaxSeries = 8
